@@ -245,9 +245,10 @@ func (r *relay) processFrame(f http2.Frame) error {
 		err = r.processor(f.StreamID).RSTStream(f.ErrCode)
 	case *http2.SettingsFrame:
 		if f.IsAck() {
-			r.destMu.Lock()
-			err = r.dest.WriteSettingsAck()
-			r.destMu.Unlock()
+			// The acknowledgement tells the destination that its settings are in force. It
+			// must not overtake frames that were queued for the destination under the
+			// previous settings, so it takes its place in the output queue.
+			r.output <- &queuedSettingsAckFrame{}
 		} else {
 			var settings []http2.Setting
 			if err = f.ForeachSetting(func(s http2.Setting) error {
